@@ -484,6 +484,8 @@ type originGen struct {
 	segDurMs    []int
 	forceMulti  bool
 	noPDTChance int
+	// audio always travels in renditions with playlists of their own
+	forceRenditions bool
 }
 
 func aacCodecTS(rate int) *mpegts.CodecMPEG4Audio {
@@ -497,7 +499,7 @@ func genStubOrigin(r *Run, g *originGen) *stubOrigin {
 	container := g.containers[T.Intn(len(g.containers))]
 	mode := g.modes[T.Intn(len(g.modes))]
 	nSeg := T.Range(g.minSegs, g.maxSegs)
-	hasVideo := T.Chance(4, 5)
+	hasVideo := T.Chance(4, 5) || g.forceRenditions
 	nAudioSame := 0
 	nRend := 0
 	tsRend := false
@@ -512,7 +514,7 @@ func genStubOrigin(r *Run, g *originGen) *stubOrigin {
 			nAudioSame = 1
 		}
 	} else {
-		if g.renditions && hasVideo && T.Chance(1, 2) {
+		if g.renditions && hasVideo && (T.Chance(1, 2) || g.forceRenditions) {
 			nRend = T.Range(1, 3)
 		} else {
 			nAudioSame = T.Intn(3)
